@@ -319,7 +319,7 @@ def run(tier, t0):
     for r in range(0, RL + 1):
         paths = rm.descendants((), r)
         cells = []
-        for part in common.pmap(work_level, common.chunks(paths, 400)):
+        for part in common.pmap(work_level, common.chunks(rm.interleaved(paths), 400)):
             cells.extend(part.out)
             part.out = None
             acc.merge(part)
